@@ -11,7 +11,7 @@ EXTENDS BitIOOps, TLC
 
 CONSTANTS MaxLen
 
-BI == INSTANCE BitIO WITH Modes <- {"w"}, MaxBits <- 0, Pads <- {0},
+BI == INSTANCE BitIO WITH Modes <- {"w"}, MaxBits <- 0, Pads <- {0}, Bases <- {0}, base <- 0,
                           mode <- "w", f <- <<>>, w <- W0, r <- R0, out <- [err |-> "none"],
                           pre <- R0, inp <- 0, hist <- <<>>, fin <- 0
 
